@@ -509,7 +509,13 @@ func ViewTags(v *manager.View) (string, error) {
 			return err
 		}
 		sort.Strings(tags)
-		lines = append(lines, fmt.Sprintf("%d [%s]", sc.Stream().ID(), strings.Join(tags, ",")))
+		// the converters a client is offered for the stream (those of the tags it carries, as of the snapshot)
+		convs, err := sc.AllConverters()
+		if err != nil {
+			return err
+		}
+		sort.Strings(convs)
+		lines = append(lines, fmt.Sprintf("%d [%s] converters [%s]", sc.Stream().ID(), strings.Join(tags, ","), strings.Join(convs, ",")))
 		return nil
 	}, manager.PrefetchAllTags())
 	if err != nil {
